@@ -430,3 +430,17 @@ Proof.
       intros c _. apply row_numbers_amounts; [|reflexivity].
       intros col. rewrite Hval. apply Hcells.
 Qed.
+
+(* the renderer alone: the numbers of a line, for every render configuration *)
+Theorem table_cells_render rc p a neg_ oc dates :
+  Forall2 cell_is
+    (row_numbers (rc_diff rc) neg_ (shown_vals rc p a) oc dates dec_nil)
+    (row_values (rc_diff rc) neg_ (shown_vals rc p a) oc dates 0) /\
+  forall d, dvalue (ra_get0 (shown_vals rc p a) (Some d, oc)) == esum (collapse_key (show_of rc p)) (Some d, oc) a.
+Proof.
+  split; [apply row_numbers_values; reflexivity|]. intros d. unfold shown_vals.
+  rewrite ra_get0_esum by (apply sum_into_unique; constructor).
+  rewrite esum_sum_into. cbn [esum]. rewrite Qplus_0_l.
+  rewrite (esum_ext (fun k0 => idk (collapse_key (show_of rc p) k0)) (collapse_key (show_of rc p))); [reflexivity|].
+  intros x. reflexivity.
+Qed.
